@@ -140,7 +140,8 @@ def search(ctx):
     try:
         for i in range(n):
             lens = (i % 5 == 4)
-            origin = (0.0, 0.0) if i % 2 == 1 else (float(rng.integers(1, 30)) * 0.1, float(rng.integers(1, 30)) * 0.1)
+            # grids away from the origin, on either side of it (negative coordinates give negative guesses and bounds)
+            origin = (0.0, 0.0) if i % 3 == 1 else ((float(rng.integers(1, 30)) * 0.1, float(rng.integers(1, 30)) * 0.1) if i % 3 == 0 else (-float(rng.integers(25, 60)) * 0.1, -float(rng.integers(25, 60)) * 0.1))
             det, data, truth, th = make_problem(rng, lens=lens, npix=16 if lens else 20, origin=origin)
             for S in (NmpfitStrategy, LeastSquaresScipyStrategy):
                 sname = S.__name__
